@@ -297,7 +297,8 @@ func (fc *fnCtx) unboundClauses() []string {
 	}
 	for k := range c.Loops {
 		if !have[k] {
-			out = append(out, fmt.Sprintf("%s:%d: `loop %d` clauses bind to no loop of the function", strings.TrimPrefix(c.File, fc.eng.repo+"/"), c.Line, k))
+			// proof hints only: a loop that no longer exists needs no invariant (noted, not an alarm)
+			fc.noteImprecise("`loop %d` clauses of the contract bind to no loop (dropped)", k)
 		}
 	}
 	sort.Strings(out)
@@ -1066,6 +1067,13 @@ func (fc *fnCtx) applyIfaceContract(st *State, x *ssa.Call, c *Contract, recv Va
 		app1 := fc.ifaceApp(recv, x.Call.Method.Name(), args, rt)
 		r := Val{T: fc.defs.Define(x.Name(), fc.S().SortOf(rt), app1.T), Ty: rt}
 		fc.assume(st, fc.S().RangeFact(rt, r.T, 1))
+		if isPointer(rt) {
+			// a pointer obtained from an object that existed at entry points to an object that existed at entry
+			fc.assume(st, fmt.Sprintf("(and (< %s %s) (=> (< (if.val %s) %s) (< %s %s)))", r.T, st.alloc, recv.T, fc.top.alloc0, r.T, fc.top.alloc0))
+		}
+		if isSliceT(rt) {
+			fc.assume(st, fmt.Sprintf("(and (< (sl.base %s) %s) (=> (< (if.val %s) %s) (< (sl.base %s) %s)))", r.T, st.alloc, recv.T, fc.top.alloc0, r.T, fc.top.alloc0))
+		}
 		results = []Val{r}
 	} else {
 		for i := 0; i < sig.Results().Len(); i++ {
